@@ -215,8 +215,8 @@ def obligations(tier, seed):
     obs.append(Ob("citations of per-record 'Direct Submission' references m=2", ob_citations,
                   dict(m=2, nref=[1, 1, 1], nfeat=[1, 1, 1], ncit=[1, 1, 1], sympos=0, direct_submission=True), samples=8,
                   cost=3000))
-    obs.append(Ob("citations of per-record 'Direct Submission' references m=1 refs=[2,2]", ob_citations,
-                  dict(m=1, nref=[2, 2], nfeat=[1, 1], ncit=[1, 1], sympos=1, direct_submission=True), samples=8, cost=6000))
+    obs.append(Ob("citations of per-record 'Direct Submission' references m=1 refs=[2,1]", ob_citations,
+                  dict(m=1, nref=[2, 1], nfeat=[1, 1], ncit=[1, 1], sympos=1, direct_submission=True), samples=8, cost=6000))
     for sh in shapes:
         for sympos in range(sh["m"] + 1):
             if sh["nfeat"][sympos] == 0:
